@@ -106,3 +106,21 @@ func (mc *memberCore) shouldAcceptMessage(
 
 	return !isMessageFromSelf && isSenderValid && isSenderAccepted
 }
+
+// shouldAcceptMessageFromAccused indicates whether the given member should
+// accept an accusations message from a sender it accused, and disqualified,
+// in the very same phase. The disqualification is not known to the other
+// members until the accusations are resolved, so they all accept that message.
+func (mc *memberCore) shouldAcceptMessageFromAccused(
+	senderID group.MemberIndex,
+	senderPublicKey []byte,
+	accusedMembers map[group.MemberIndex]bool,
+) bool {
+	isMessageFromSelf := senderID == mc.ID
+	isSenderValid := mc.membershipValidator.IsValidMembership(
+		senderID,
+		senderPublicKey,
+	)
+
+	return !isMessageFromSelf && isSenderValid && accusedMembers[senderID]
+}
